@@ -1604,6 +1604,122 @@ fn c09_port_write_reaches_border_device() {
 }
 
 // =============================================================================================
+// Device dispatch of one clock step / one frame end (glue between the controller and its devices)
+// =============================================================================================
+static mut DD_SEQ: u32 = 0;
+static mut DD_RENDER_CALLS: u32 = 0;
+static mut DD_RENDER_T: usize = 0;
+static mut DD_RENDER_SEQ: u32 = 0;
+static mut DD_FRAME_CALLS: u32 = 0;
+static mut DD_FRAME_SEQ: u32 = 0;
+
+fn dd_reset() {
+    unsafe {
+        DD_SEQ = 0;
+        DD_RENDER_CALLS = 0;
+        DD_RENDER_T = 0;
+        DD_RENDER_SEQ = 0;
+        DD_FRAME_CALLS = 0;
+        DD_FRAME_SEQ = 0;
+    }
+}
+
+/// stands for ZXScreen::process_clocks (decided by c08_render_schedule / c08_pixel_decode)
+fn dd_screen_clocks<FB: crate::host::FrameBuffer>(_s: &mut ZXScreen<FB>, clocks: usize) {
+    unsafe {
+        DD_SEQ += 1;
+        DD_RENDER_CALLS += 1;
+        DD_RENDER_T = clocks;
+        DD_RENDER_SEQ = DD_SEQ;
+    }
+}
+
+/// stands for the frame-end entry point of the device under test
+fn dd_screen_new_frame<FB: crate::host::FrameBuffer>(_s: &mut ZXScreen<FB>) {
+    unsafe {
+        DD_SEQ += 1;
+        DD_FRAME_CALLS += 1;
+        DD_FRAME_SEQ = DD_SEQ;
+    }
+}
+
+// @harness
+// @prop C08
+// @tier quick
+// @timeout 600
+// @fn ZXController::wait_internal; ZXController::new_frame
+// @sym machine, frame time (any in-frame T), step 0..63 T
+// @assert every clock step hands the renderer the new frame time exactly once (so cells are rendered as the beam reaches them, c08_render_schedule), BEFORE a frame end is processed; a step that completes the frame ends the renderer's frame exactly once (c08_frame_end_and_flash), a step that does not never does
+// @bound one clock step (inductive over steps)
+// @stub ZXScreen::process_clocks -> recorder of (calls, time, order); ZXScreen::new_frame -> recorder of (calls, order)
+// @replay solver-only
+#[kani::proof]
+#[kani::stub(crate::zx::video::screen::ZXScreen::process_clocks, dd_screen_clocks)]
+#[kani::stub(crate::zx::video::screen::ZXScreen::new_frame, dd_screen_new_frame)]
+fn c08_clock_step_reaches_the_renderer() {
+    let m = crate::emulator::verif_hooks::any_machine();
+    let f = spec_frame_len(m);
+    let mut c = mk_controller(m, FbCtx { wx: 0, wy: 0 }, false, false);
+    let t: usize = kani::any();
+    let step: usize = kani::any();
+    kani::assume(t < f && step < 64);
+    c.frame_clocks = t;
+    dd_reset();
+    c.wait_internal(step);
+    unsafe {
+        kani::assert(DD_RENDER_CALLS == 1 && DD_RENDER_T == t + step, "c08.dispatch.renderer_gets_the_new_frame_time_once");
+        let ends = t + step >= f;
+        kani::assert(DD_FRAME_CALLS == if ends { 1 } else { 0 }, "c08.dispatch.renderer_frame_ends_exactly_at_frame_end");
+        if ends {
+            kani::assert(DD_RENDER_SEQ < DD_FRAME_SEQ, "c08.dispatch.rest_of_the_frame_rendered_before_the_flip");
+        }
+        kani::cover!(ends && step == 7, "frame end inside the step");
+        kani::cover!(!ends && t == 14336, "ordinary step");
+    }
+}
+
+#[cfg(feature = "precise-border")]
+fn dd_border_new_frame<FB: crate::host::FrameBuffer>(_b: &mut ZXBorder<FB>) {
+    unsafe {
+        DD_FRAME_CALLS += 1;
+    }
+}
+
+// @harness
+// @prop C09
+// @tier quick
+// @features precise-border
+// @timeout 600
+// @fn ZXController::wait_internal; ZXController::new_frame
+// @sym machine, frame time (any in-frame T), step 0..63 T
+// @assert the border device's frame protocol (c09_frame_protocol: one new_frame per completed frame) is what the controller really drives: a clock step that completes the frame ends the border's frame exactly once, any other step never does
+// @bound one clock step (inductive over steps)
+// @stub ZXBorder::new_frame -> call counter; ZXScreen::process_clocks -> no-op
+// @replay solver-only
+#[cfg(feature = "precise-border")]
+#[kani::proof]
+#[kani::unwind(10)]
+#[kani::stub(crate::zx::video::screen::ZXScreen::process_clocks, noop_screen_clocks)]
+#[kani::stub(crate::zx::video::border::ZXBorder::new_frame, dd_border_new_frame)]
+fn c09_frame_end_reaches_border_device() {
+    let m = crate::emulator::verif_hooks::any_machine();
+    let f = spec_frame_len(m);
+    let mut c = mk_controller(m, FbCtx { wx: 0, wy: 0 }, false, false);
+    let t: usize = kani::any();
+    let step: usize = kani::any();
+    kani::assume(t < f && step < 64);
+    c.frame_clocks = t;
+    dd_reset();
+    c.wait_internal(step);
+    unsafe {
+        let ends = t + step >= f;
+        kani::assert(DD_FRAME_CALLS == if ends { 1 } else { 0 }, "c09.dispatch.border_frame_ends_exactly_at_frame_end");
+        kani::cover!(ends, "frame end inside the step");
+        kani::cover!(!ends && step == 63, "ordinary step");
+    }
+}
+
+// =============================================================================================
 // C19 — sample cursor arithmetic at real sample rates (feature sound, no AY)
 // =============================================================================================
 #[cfg(all(feature = "sound", not(feature = "ay")))]
@@ -1901,5 +2017,90 @@ mod c19 {
     #[kani::proof]
     fn c19_cursor_384000() {
         cursor_body(384000);
+    }
+
+    static mut MX_SEQ: u32 = 0;
+    static mut MX_PROCESS_CALLS: u32 = 0;
+    static mut MX_PROCESS_SEQ: u32 = 0;
+    static mut MX_PROCESS_POS_OK: bool = false;
+    static mut MX_EXPECT_T: usize = 0;
+    static mut MX_FRAME: usize = 1;
+    static mut MX_FRAME_CALLS: u32 = 0;
+    static mut MX_FRAME_SEQ: u32 = 0;
+
+    /// stands for ZXMixer::process (decided by c19_mixer_step_*): records the call and whether the frame
+    /// position it was handed is the one of the new frame time (the same expression the statement gives:
+    /// time / frame length, capped at the frame end)
+    fn mx_process(_m: &mut crate::zx::sound::mixer::ZXMixer, pos: f64) {
+        unsafe {
+            MX_SEQ += 1;
+            MX_PROCESS_CALLS += 1;
+            MX_PROCESS_SEQ = MX_SEQ;
+            let exact = MX_EXPECT_T as f64 / MX_FRAME as f64;
+            MX_PROCESS_POS_OK = if MX_EXPECT_T > MX_FRAME { pos == 1.0 } else { pos == exact };
+        }
+    }
+
+    fn mx_new_frame(_m: &mut crate::zx::sound::mixer::ZXMixer) {
+        unsafe {
+            MX_SEQ += 1;
+            MX_FRAME_CALLS += 1;
+            MX_FRAME_SEQ = MX_SEQ;
+        }
+    }
+
+    fn mixer_dispatch_case(m: ZXMachine, t: usize) {
+        let f = spec_frame_len(m);
+        let mut c = mk_controller(m, FbCtx { wx: 0, wy: 0 }, false, false);
+        let step: usize = kani::any();
+        kani::assume(step < 64);
+        c.frame_clocks = t;
+        unsafe {
+            MX_SEQ = 0;
+            MX_PROCESS_CALLS = 0;
+            MX_FRAME_CALLS = 0;
+            MX_EXPECT_T = t + step;
+            MX_FRAME = f;
+        }
+        c.wait_internal(step);
+        unsafe {
+            kani::assert(MX_PROCESS_CALLS == 1, "c19.dispatch.mixer_stepped_once_per_clock_step");
+            kani::assert(MX_PROCESS_POS_OK, "c19.dispatch.mixer_gets_the_new_frame_position");
+            let ends = t + step >= f;
+            kani::assert(MX_FRAME_CALLS == if ends { 1 } else { 0 }, "c19.dispatch.audio_frame_ends_exactly_at_frame_end");
+            if ends {
+                kani::assert(MX_PROCESS_SEQ < MX_FRAME_SEQ, "c19.dispatch.samples_of_the_frame_generated_before_it_is_closed");
+            }
+        }
+    }
+
+    // @harness
+    // @prop C19
+    // @tier quick
+    // @features sound
+    // @timeout 900
+    // @fn ZXController::wait_internal; ZXController::frame_pos; ZXController::new_frame
+    // @sym step 0..63 T from four literal frame times per machine (frame start, mid frame, 20 T before the frame end, last T of the frame)
+    // @assert every clock step steps the mixer exactly once with the frame position of the NEW frame time (time/frame length, capped at 1), before a frame end is processed; a step that completes the frame closes the audio frame exactly once (c19_frame_end_pads_to_full_frame), any other step never does - this is what lets c19_mixer_step_* and c19_cursor_* speak about the machine
+    // @bound one clock step; frame times literal (a symbolic time puts a symbolic f64 division on both sides of the comparison)
+    // @stub ZXMixer::process -> recorder; ZXMixer::new_frame -> recorder; ZXScreen::process_clocks -> no-op
+    // @replay solver-only
+    #[kani::proof]
+    #[kani::stub(crate::zx::video::screen::ZXScreen::process_clocks, noop_screen_clocks)]
+    #[kani::stub(crate::zx::sound::mixer::ZXMixer::process, mx_process)]
+    #[kani::stub(crate::zx::sound::mixer::ZXMixer::new_frame, mx_new_frame)]
+    fn c19_clock_step_reaches_the_mixer() {
+        let sel: u8 = kani::any();
+        match sel {
+            0 => mixer_dispatch_case(ZXMachine::Sinclair48K, 0),
+            1 => mixer_dispatch_case(ZXMachine::Sinclair48K, 34944),
+            2 => mixer_dispatch_case(ZXMachine::Sinclair48K, 69868),
+            3 => mixer_dispatch_case(ZXMachine::Sinclair48K, 69887),
+            4 => mixer_dispatch_case(ZXMachine::Sinclair128K, 0),
+            5 => mixer_dispatch_case(ZXMachine::Sinclair128K, 35454),
+            6 => mixer_dispatch_case(ZXMachine::Sinclair128K, 70888),
+            _ => mixer_dispatch_case(ZXMachine::Sinclair128K, 70907),
+        }
+        kani::cover!(sel == 3, "frame end inside the step");
     }
 }
